@@ -466,16 +466,17 @@ pub fn run_receiver_stale(events: &[TracingEvent], filter: Option<&HFilter>, mod
     TunnelRun { calls, accepted: rejected == 0 && !panicked, rejected, panicked, enabled_queries: rec.enabled_queries() }
 }
 
-/// The run handed to the judge: the fresh-receiver run, unless the run from stale metadata made other
-/// host calls (registrations aside: the arena is process-global) or accepted other events.
-pub fn pick_tunnel_run(sink: &mut Sink, fresh: TunnelRun, stale: TunnelRun) -> TunnelRun {
+/// The fresh-receiver run, and the run from stale metadata when it made other host calls
+/// (registrations aside: the arena is process-global) or accepted other events: then both runs are
+/// judged and the case gets the worse verdict (`vworst`, Base/Worst.v).
+pub fn pick_tunnel_run(sink: &mut Sink, fresh: TunnelRun, stale: TunnelRun) -> (TunnelRun, Option<TunnelRun>) {
     let strip = |r: &TunnelRun| chcalls(&r.calls.iter().filter(|c| !matches!(c, Call::Register(..))).cloned().collect::<Vec<_>>()).0;
     if strip(&fresh) == strip(&stale) && fresh.accepted == stale.accepted && fresh.panicked == stale.panicked {
         sink.bump("stale-metadata-restore:same-host-calls");
-        fresh
+        (fresh, None)
     } else {
         sink.bump("stale-metadata-restore:DIFFERENT-host-calls");
-        stale
+        (fresh, Some(stale))
     }
 }
 
@@ -552,6 +553,67 @@ pub fn snap_tunnel(events: &[TracingEvent], filter: Option<&HFilter>) -> String 
     let storage = SharedStorage::default();
     let subscriber = tracing_subscriber::registry().with(CaptureLayer::new(&storage)).with(PredLayer(filter.cloned()));
     let dispatch = Dispatch::new(subscriber);
+    let dump = tracing::dispatcher::with_default(&dispatch, || {
+        let mut receiver = TracingEventReceiver::default();
+        let mut failed = false;
+        for e in events {
+            match catch_unwind(AssertUnwindSafe(|| receiver.try_receive(e.clone()))) {
+                Ok(Ok(())) => {}
+                _ => {
+                    failed = true;
+                    break;
+                }
+            }
+        }
+        let dump = if failed { "receiver failed".to_owned() } else { dump_storage(&storage.lock()) };
+        if failed {
+            std::mem::forget(receiver);
+        } else {
+            drop(receiver);
+        }
+        dump
+    });
+    drop(dispatch);
+    dump
+}
+
+// ---- a host that filters inside the capture layer --------------------------------------------------
+
+/// `CaptureLayer::with_filter(..)` filter that evaluates the predicate once per call site and
+/// remembers the verdict under `Metadata::callsite()` (as interest caches and `EnvFilter` do).
+struct MemoFilter {
+    pred: Option<HFilter>,
+    memo: std::sync::Mutex<HashMap<tracing_core::callsite::Identifier, bool>>,
+}
+impl<S> tracing_subscriber::layer::Filter<S> for MemoFilter {
+    fn enabled(&self, m: &Metadata<'_>, _: &Context<'_, S>) -> bool {
+        let mut memo = self.memo.lock().unwrap();
+        *memo.entry(m.callsite()).or_insert_with(|| self.pred.as_ref().map_or(true, |f| f.eval(m)))
+    }
+}
+fn memo_host(storage: &SharedStorage, filter: Option<&HFilter>) -> Dispatch {
+    let layer = CaptureLayer::new(storage).with_filter(MemoFilter { pred: filter.cloned(), memo: Default::default() });
+    Dispatch::new(tracing_subscriber::registry().with(layer))
+}
+
+/// the program natively under `Registry + CaptureLayer::with_filter(memoising filter)`
+pub fn snap_native_layer(prog: &Prog, sites: &[&'static DynSite], filter: Option<&HFilter>) -> String {
+    let storage = SharedStorage::default();
+    let dispatch = memo_host(&storage, filter);
+    let dump = tracing::dispatcher::with_default(&dispatch, || {
+        let r = exec_on(prog, sites);
+        let dump = dump_storage(&storage.lock());
+        drop(r);
+        dump
+    });
+    drop(dispatch);
+    dump
+}
+
+/// the events through a real receiver under the same kind of host
+pub fn snap_tunnel_layer(events: &[TracingEvent], filter: Option<&HFilter>) -> String {
+    let storage = SharedStorage::default();
+    let dispatch = memo_host(&storage, filter);
     let dump = tracing::dispatcher::with_default(&dispatch, || {
         let mut receiver = TracingEventReceiver::default();
         let mut failed = false;
@@ -719,22 +781,29 @@ fn prog_case(sink: &mut Sink, idx: u64, kind: &str, prog: &Prog) {
     let sent = run_sender(prog, &sites);
     let wire = through_json(&sent.events);
     let tunnel = run_receiver(&wire.events, None, Mode::Always);
-    let tunnel = pick_tunnel_run(sink, tunnel, run_receiver_stale(&wire.events, None, Mode::Always));
+    let (tunnel, tunnel_stale) = pick_tunnel_run(sink, tunnel, run_receiver_stale(&wire.events, None, Mode::Always));
     let snap_n = snap_native(prog, &sites, None);
     let snap_t = snap_tunnel(&wire.events, None);
     let snap_eq = snap_n == snap_t;
 
     intern_begin();
     let (native_log, foreign_native) = cscalls(&native.calls, &sites);
-    let (tunnel_log, clones) = chcalls(&tunnel.calls);
-    let term = format!(
-        "judge_c01 {} (mk_tobs {native_log} {tunnel_log} {} {} {} {})",
-        cprog(prog),
-        cbool(tunnel.accepted),
-        op_events(&sent.events),
-        cbool(wire.lossless),
-        cbool(snap_eq),
-    );
+    let (_, clones) = chcalls(&tunnel.calls);
+    let term_of = |t: &TunnelRun| {
+        format!(
+            "judge_c01 {} (mk_tobs {native_log} {} {} {} {} {})",
+            cprog(prog),
+            chcalls(&t.calls).0,
+            cbool(t.accepted),
+            op_events(&sent.events),
+            cbool(wire.lossless),
+            cbool(snap_eq),
+        )
+    };
+    let term = match &tunnel_stale {
+        Some(stale) => format!("vworst ({}) ({})", term_of(&tunnel), term_of(stale)),
+        None => term_of(&tunnel),
+    };
     let judge = intern_wrap(&term);
 
     bump_prog(sink, prog);
